@@ -270,3 +270,35 @@ func (r *c19RT) DataMsgInflight() int64    { return r.onInflight() }
 func (r *c19RT) Timers() hsms.TimerConfig {
 	return r.vrt.Timers()
 }
+
+// VerifC19_EveryFrameIsLife: "shows life" is any complete inbound frame. The real receive loop
+// reads ONE frame with all ten header bytes symbolic (every SType incl. undefined ones, every
+// PType, solicited or orphan responses, data while selected or not) plus 0..1 body byte, with the
+// receive-activity stamp preset to a sentinel: afterwards the stamp the linktest rules consult has
+// been refreshed, whatever the frame was and however it was answered. (A slow-but-alive peer's late
+// Linktest.rsp is an orphan response: it must still count.)
+func VerifC19_EveryFrameIsLife() {
+	vsymExpect("stamped")
+	state := []hsms.ConnState{hsms.NotSelectedState, hsms.SelectedState}[vsymChoose(2)]
+	rt := &vrt{state: state, timers: hsms.TimerConfig{T8: time.Second}}
+	tr := newVT(rt, vsymBool())
+	clock := int64(0)
+	tr.now = func() time.Time { return vsymMonoTime(clock) }
+	hdr := vsymBytes(10)
+	body := vsymBytes(vsymChoose(2))
+	// a Separate.req / a frame that ends the loop is fine: the stamp is taken before dispatch
+	frame := append([]byte{0, 0, 0, byte(10 + len(body))}, hdr...)
+	frame = append(frame, body...)
+	if vsymBool() {
+		// it answers a transaction we have open
+		rt.pending = append(rt.pending, [4]byte{hdr[6], hdr[7], hdr[8], hdr[9]})
+	}
+	arrival := int64(7 * time.Second)
+	conn := &vconn{stream: frame, delays: []int64{arrival}, clock: &clock}
+	tr.conn = conn
+	tr.lastRecvStamp.Store(-1) // a sentinel no clock reading produces
+	tr.wg.recv.Add(1)
+	tr.recvLoop(tr.wg)
+	vsymReach("stamped")
+	vsymAssert(tr.lastRecvStamp.Load() >= 0, "every-complete-inbound-frame-counts-as-receive-activity")
+}
